@@ -259,6 +259,12 @@ func (e *kvElection) attemptAcquireWithRetry(ctx context.Context) {
 		default:
 		}
 
+		// Another acquisition round of this instance (watch event, periodic
+		// check, initial-data marker) may already have won the election.
+		if e.IsLeader() {
+			return
+		}
+
 		err := e.attemptAcquire()
 		if err == nil {
 			return
@@ -275,6 +281,11 @@ func (e *kvElection) attemptAcquireWithRetry(ctx context.Context) {
 					zap.Error(err),
 				)...,
 			)
+			// Giving up only means "stay follower"; it must never demote a
+			// leader that won through a concurrent round.
+			if e.IsLeader() {
+				return
+			}
 			e.becomeFollower()
 			return
 		}
